@@ -20,7 +20,8 @@
 (*   names    defined names kept with this sheet                           *)
 (* a defined name: [name, local, ref, addr, hidden]; local = localSheetId  *)
 (* (0-based sheet index) or -1; ref = the sheet its address designates     *)
-(* ("" if none); addr = the address text.                                  *)
+(* ("" if none); addr = the address text.  A name is unique per scope:     *)
+(* the same name may be global and local to several sheets at once.        *)
 (*                                                                         *)
 (* Every operation is wb' = <Op>P(wb, args) with <Op>P a plain operator,   *)
 (* so that the trace specification can evaluate it.  SaveLoad is modelled  *)
@@ -88,7 +89,7 @@ CanAddMerge(w, i, rg)      == rg \notin w.sheets[i].merges
 CanAddComment(w, i, r, c)  == r >= 1 /\ c >= 1 /\ ~\E x \in w.sheets[i].comments : x.r = r /\ x.c = c
 CanAddName(w, home, n)     == /\ home \in 0..Len(w.sheets)
                               /\ n.local < Len(w.sheets)
-                              /\ ~\E m \in AllNames(w) : m.name = n.name
+                              /\ ~\E m \in AllNames(w) : m.name = n.name /\ m.local = n.local      \* unique per (name, scope)
 CanRemoveSheet(w, i)       == Len(w.sheets) >= 2 /\ \A n \in AllNames(w) : n.local < 0
 CanAddDv(w, i, d)          == d \notin w.sheets[i].dvs
 (* (Worksheet::set_name re-targets the addresses of the names kept with the sheet: outside this model) *)
@@ -189,6 +190,6 @@ WellFormed ==
        /\ \A x, y \in wb.sheets[i].links : x.cell = y.cell => x = y                          \* one link per cell
        /\ \A x, y \in wb.sheets[i].comments : RC(x) = RC(y) => x = y                         \* one comment per cell
        /\ Len(wb.sheets[i].af) <= 1 /\ Len(wb.sheets[i].tab) <= 1 /\ Len(wb.sheets[i].prot) <= 1
-  /\ \A n, m \in AllNames(wb) : n.name = m.name => n = m
+  /\ \A n, m \in AllNames(wb) : (n.name = m.name /\ n.local = m.local) => n = m    \* a name is unique within its scope only
   /\ \A n \in AllNames(wb) : n.local < Len(wb.sheets)
 =============================================================================
